@@ -683,19 +683,25 @@ func errorExit(x ssa.Instruction) bool {
 	if !isErrorType(v.Type()) {
 		return false
 	}
-	// a function with defers returns through a spilled result variable: `*res = nil; rundefers; return *res`
+	return !isNilConst(spilledResult(r, len(r.Results)-1))
+}
+
+// spilledResult: result idx of a return; a function with defers returns
+// through spilled result variables (`*res = v; rundefers; return *res`), which
+// is resolved to the value stored in the return's own block.
+func spilledResult(r *ssa.Return, idx int) ssa.Value {
+	v := r.Results[idx]
 	if u, ok := v.(*ssa.UnOp); ok && u.Op == token.MUL {
 		if cell, isCell := u.X.(*ssa.Alloc); isCell {
 			instrs := r.Block().Instrs
 			for i := len(instrs) - 1; i >= 0; i-- {
 				if st, isSt := instrs[i].(*ssa.Store); isSt && st.Addr == ssa.Value(cell) {
-					v = st.Val
-					break
+					return st.Val
 				}
 			}
 		}
 	}
-	return !isNilConst(v)
+	return v
 }
 
 // mustFollow: after every instruction matching trig, an instruction matching eff follows on all paths.
